@@ -245,3 +245,4 @@ impl Approx { pub uninterp spec fn val(&self) -> f64;
     #[verifier::external_body] pub fn value(self) -> (r: f64) ensures r == self.val() { unimplemented!() } }
 impl Integer { #[verifier::external_body] pub fn to_f64(&self) -> (r: Approx) ensures r.val() == f_of_int(self.v()) { unimplemented!() } }
 impl Rational { #[verifier::external_body] pub fn to_f64(&self) -> (r: Approx) ensures r.val() == f_of_q(*self) { unimplemented!() } }
+pub assume_specification [<f64>::abs] (a: f64) -> (r: f64) ensures r == f_abs(a);
